@@ -494,6 +494,8 @@ class PathVars(Obligation):
         ctx = rc.RenderContext(core_package_name="core", package_root_for_generated_code="/tmp/x", overall_project_root="/tmp")
         ctx.set_current_file("/tmp/x/endpoints/e.py")
         ordered, _, _ = pp.EndpointParameterProcessor({}).process_parameters(op, ctx)
+        # (undeclared path variables are added from a set: their order follows the hash seed - C09's subject - so the
+        # comparison of witnesses sorts them, see normalise)
         return (expr, [p["name"] for p in ordered if p.get("param_in") == "path"])
 
     def run_sym(self, inp):
@@ -504,7 +506,7 @@ class PathVars(Obligation):
 
     def normalise(self, r):
         if isinstance(r, tuple):
-            return (r[0].simp() if is_sym(r[0]) else r[0], [x.simp() if is_sym(x) else x for x in r[1]])
+            return (r[0].simp() if is_sym(r[0]) else r[0], sorted(str(x.simp() if is_sym(x) else x) for x in r[1]))
         return r
 
     @staticmethod
